@@ -1186,20 +1186,22 @@ func c08RunOne(in *c08In) Result {
 			}
 		}
 	}
-	class := in.Name
-	if class == "" {
-		class = "replay"
+	class := "replay"
+	if parts := strings.Split(in.Name, "/"); len(parts) >= 3 && parts[0] == "tmpl" {
+		class = strings.Join(parts[:3], "/")
+	} else if parts[0] == "random" {
+		class = fmt.Sprintf("random/steps=%d", len(in.Ops))
+	} else if parts[0] == "corpus" {
+		class = "corpus"
 	}
-	if i := strings.IndexByte(class, '/'); i >= 0 {
-		class = class[:i]
-	}
+	key, _ := json.Marshal(in)
 	obs := map[string]interface{}{"label": label, "full": full[1:], "erased": erased}
 	if erased > 0 {
 		obs["ref"] = ref[1:]
 	}
 	return Result{
 		Term: cApp("CHist", cList(envT), cList(opsT), c08ObsTerm(&full[0]), cList(fullT), cList(refT)),
-		Obs:  obs, Sig: label, Direct: direct, Nontrivial: fails > 0 && len(full) == len(in.Ops)+1, Class: class,
+		Obs:  obs, Sig: label, Direct: direct, Key: string(key), Nontrivial: fails > 0 && len(full) == len(in.Ops)+1, Class: class,
 	}
 }
 
@@ -1279,10 +1281,12 @@ func c08MkCfg(id int, ft c08Feat, fault string, htf int) *c08Cfg {
 	} else if ft.On > 0 {
 		c.Effs = append(c.Effs, c08Eff{K: "on", N: ft.On})
 	}
-	if fault == "startup" {
-		c.Effs = append(c.Effs, c08Eff{K: "log", F: 3, Size: 7, OK: false})
-	} else if ft.Log > 0 {
+	if ft.Log > 0 {
 		c.Effs = append(c.Effs, c08Eff{K: "log", F: 1, Size: ft.Log, OK: true})
+	}
+	if fault == "startup" {
+		// the failing startup callback comes after the one that succeeds (and registers its roller)
+		c.Effs = append(c.Effs, c08Eff{K: "log", F: 3, Size: 7, OK: false})
 	}
 	if fault == "bad1" {
 		c.Effs = append(c.Effs, c08Eff{K: "bad", N: 1})
